@@ -66,6 +66,8 @@ mod serialization;
 mod rational;
 #[cfg(csl_verif)]
 pub mod verif_hooks;
+#[cfg(csl_verif)]
+pub mod verif_hooks_c12;
 
 pub use serialization::*;
 
